@@ -421,3 +421,34 @@ Proof.
   - destruct cs as [|name aliases sub rest]; cbn [tree_okb_cs tree_ok_cs]; [auto|].
     intros H. apply andb_prop in H. destruct H as [H1 H2]. split; [apply (tree_okb_sound sub); exact H1|apply (tree_okb_cs_sound rest); exact H2].
 Qed.
+
+(* C08 on conventional trees: a level that offers subcommands is a sentence exactly through ONE of
+   them -- the scan stops at the first free word naming it, everything to its right is judged by
+   that subcommand's own grammar (with the enclosing items as ancestors), and its value comes last
+   in the enclosing result; the parser returns exactly that *)
+Theorem tree_cmd_value feat env items cs argv v :
+  tree_ok (Level items (TCmds cs)) ->
+  denote (Level items (TCmds cs)) argv = Accept v ->
+  let st := short_tables (compile_options (Level items (TCmds cs))) in
+  let ts := mark_tokens (tokenize (fst st) (snd st) argv) in
+  exists a sub rest vs sv,
+    scan items [] (TCmds cs) ts = ScCmd a sub rest /\
+    denote_level (length ts) sub ([] ++ items) rest = Accept sv /\
+    items_values items 0 (at_occ a) = Some vs /\
+    v = VTuple (vs ++ [sv]) /\
+    run_inner feat env (compile_options (Level items (TCmds cs))) None argv = OutOk v.
+Proof.
+  intros Hok Hd. pose proof (denote_accept_tree feat env _ argv v Hok Hd) as Hr.
+  cbn zeta. unfold denote in Hd.
+  destruct (short_tables (compile_options (Level items (TCmds cs)))) as [sf sa]. cbn [fst snd].
+  destruct (t_ambiguity (tokenize sf sa argv)); [discriminate|].
+  assert (El : length (mark_tokens (tokenize sf sa argv)) = length (t_items (tokenize sf sa argv)))
+    by (unfold mark_tokens; apply mark_go_length).
+  rewrite <- El in Hd. cbn [denote_level] in Hd.
+  destruct (scan items [] (TCmds cs) (mark_tokens (tokenize sf sa argv))) as [a|a sub rest| |]; try discriminate.
+  - destruct (items_values items 0 (at_occ a)); discriminate.
+  - destruct (denote_level (length (mark_tokens (tokenize sf sa argv))) sub ([] ++ items) rest) as [sv| |] eqn:Es; try discriminate.
+    destruct (items_values items 0 (at_occ a)) as [vs|] eqn:Ev; [|discriminate].
+    inversion Hd; subst v. exists a, sub, rest, vs, sv. repeat split; auto.
+Qed.
+Print Assumptions tree_cmd_value.
